@@ -508,6 +508,49 @@ MULTIBYTE = ["é", "ü", "€", "😀", " ", "　", "ß", "Ω", "́"]
 ATTR_BODIES = ["derive(Debug)", "doc = \"é\"", "a(b[c{d}e]f)g", "cfg(all(x, y))", "€", "😀(é)", "x = \"]\"", "a(])", "(]", "((", "a)", "]", "[[]]", "{(})", ""]
 
 
+BOUNDARY_SIZES = [1, 2, 3, 7, 8, 9, 15, 16, 17, 31, 32, 33, 63, 64, 65, 127, 128, 129, 254, 255, 256, 257, 300, 511, 512, 513, 1000]
+BOUNDARY_SIZES_THOROUGH = BOUNDARY_SIZES + [4095, 4096, 4097, 32767, 32768, 65535, 65536, 65537]
+
+
+def deep_attr(n, kinds="([{"):
+    """a balanced attribute whose brackets nest `n` deep (counters of 8/16 bits are the target)"""
+    close = {"(": ")", "[": "]", "{": "}"}
+    opens = [kinds[i % len(kinds)] for i in range(n)]
+    return "#[" + "".join(opens) + "x" + "".join(close[o] for o in reversed(opens)) + "]"
+
+
+def size_probes(thorough=False):
+    """Texts in which one structural quantity — bracket nesting depth inside an attribute, number of attributes,
+    identifier / comment / whitespace length, type nesting, path length, number of generic arguments, fields,
+    variants, declarations — sits at and around the limits of 8- and 16-bit counters.  Valid files and files with one
+    error just past the deep structure."""
+    out = []
+    for n in (BOUNDARY_SIZES_THOROUGH if thorough else BOUNDARY_SIZES):
+        for kinds in ("(", "([{"):
+            a = deep_attr(n, kinds)
+            out.append(f"start S {a} struct S terminal K {{ $T: () }}")
+            out.append(a)
+            out.append(a[:-1])                                   # the closing `]` missing
+            out.append(a[:-2] + "]" + a[-2] + " struct S")       # last two closers swapped
+            out.append("#[" + "(" * (n + 45) + ")" * n + "\n struct S")   # unterminated by that many
+            out.append("#[" + "(" * n + ")" * (n + 1) + "]")      # one closer too many
+        if n <= 4097:
+            ident = "A" * n
+            out.append(f"start {ident} struct {ident} terminal K {{ $T: () }}")
+            out.append(f"start S struct S terminal K {{ ${'t' * n}: () }}")
+            out.append("start S " + "#[a]" * n + " struct S terminal K { $T: () }")
+            out.append("start S struct S terminal K { $T: () } //" + "c" * n)
+            out.append("start" + " " * n + "S struct S terminal K { $T: () }")
+            out.append("start S struct S terminal K { $T: " + "Vec<" * n + "u8" + ">" * n + " }")
+            out.append("start S struct S terminal K { $T: " + "::".join(["p"] * n) + " }")
+            out.append("start S struct S terminal K { $T: G<" + ", ".join(["u8"] * n) + "> }")
+        if n <= 513:
+            out.append("start S struct S(" + " ".join(["$T"] * n) + ") terminal K { $T: () }")
+            out.append("start S enum S { " + " ".join(f"V{i}(" + " ".join(["$T"] * (i + 1)) + ")" for i in range(min(n, 40))) + " } terminal K { $T: () }")
+            out.append("start S0 " + " ".join(f"struct S{i}" for i in range(n)) + " terminal K { $T: () }")
+    return out
+
+
 def malformed_texts(rng, bases, n):
     """Mutations of valid texts plus raw fragments: the stream for C07/C08."""
     out = []
@@ -557,7 +600,10 @@ def inject_violation(items, rng):
                          "start-is-terminal", "tenum-as-nt",
                          # violations inside a declaration nothing refers to: no later stage (conflicts) can mask the verdict
                          "unused-unit-seq-clash", "unused-seq-clash", "unused-variant-name-clash", "unused-undef",
-                         "unused-lower"])
+                         "unused-lower",
+                         # sibling variants that differ only in the namespace of one symbol (`N` vs `$N`), one of the two
+                         # undefined: the only violation is the undefined reference, not a symbol-sequence clash
+                         "unused-sibling-cross-namespace", "unused-sibling-cross-namespace"])
     tnames = [v["name"] for v in term["variants"]]
 
     def all_fields():
@@ -658,6 +704,18 @@ def inject_violation(items, rng):
             d = {"kind": "enum", "attrs": [], "name": name, "variants": [{"name": "Alpha", "fieldset": fs_of(some, False)}, {"name": "Beta", "fieldset": fs_of(some, rng.random() < 0.5)}]}
         elif choice == "unused-variant-name-clash":
             d = {"kind": "enum", "attrs": [], "name": name, "variants": [{"name": "Alpha", "fieldset": fs_of(some, False)}, {"name": "Alpha", "fieldset": {"kind": "empty"}}]}
+        elif choice == "unused-sibling-cross-namespace":
+            if tnames and rng.random() < 0.5 and tnames[0] not in [d["name"] for d in nts]:
+                base, other = sym_t(tnames[0]), sym_n(tnames[0])        # `$T` defined, `T` is not a nonterminal
+            elif nts[0]["name"] not in tnames:
+                base, other = sym_n(nts[0]["name"]), sym_t(nts[0]["name"])  # `N` defined, `$N` is not a terminal
+            else:
+                return None
+            pre = [sym_t(rng.choice(tnames))] if tnames and rng.random() < 0.5 else []
+            va, vb = pre + [base], pre + [other]
+            if rng.random() < 0.5:
+                va, vb = vb, va
+            d = {"kind": "enum", "attrs": [], "name": name, "variants": [{"name": "Alpha", "fieldset": fs_of(va, False)}, {"name": "Beta", "fieldset": fs_of(vb, rng.random() < 0.5)}]}
         elif choice == "unused-undef":
             d = {"kind": "struct", "attrs": [], "name": name, "fieldset": fs_of([rng.choice([sym_n("Missing"), sym_t("Missing")] + ([sym_n(tnames[0])] if tnames else []))], rng.random() < 0.5)}
         else:
